@@ -102,6 +102,7 @@ def run(ctx):
     c03_view.check(ctx)
     c03_view.check_stop_maintenance(ctx)
     c03_view.check_async_twins(ctx, F)
+    c03_view.check_code_forms(ctx)
 
     # ---- R3.3a exhaustiveness of single-element tables --------------------------------------------------------------
     ctx.rule('R3.3a', 'every (class, field) of the grammar is a key of _PUT_ONE_HANDLERS and _GET_ONE_HANDLERS or in the '
